@@ -763,6 +763,75 @@ def sweep_doc():
     return d
 
 
+def collision_block(fi, tag, leaf=None):
+    """items of one file that collide after case conversion in every scope pilota-build converts names in: two services whose
+    names coincide after UpperCamel conversion and that share method names (their helper items <Service><Method>ArgsSend ... are
+    told apart only by ThriftLower.service_name_duplicates), a third pair spelled with an underscore, methods that collide inside one
+    service (function_name_duplicates), structs, fields, enum members, consts.  `leaf` = (file index, struct name) of a type of
+    another file to refer to."""
+    fl = lambda i, n, t, req="": dict(id=i, name=n, ty=t, req=req, default=None, annos=[])
+    i32, s = ("base", "i32"), ("base", "string")
+    other = ("ref", leaf[0], leaf[1]) if leaf else i32
+    req = ("ref", fi, "Req" + tag)
+    items = [
+        dict(kind="struct", name="Req" + tag, complete=True, annos=[], fields=[fl(1, "fooBar", i32), fl(2, "foo_bar", s), fl(3, "FooBar", i32), fl(4, "far", other, "optional")]),
+        dict(kind="struct", name="fooItem" + tag, complete=True, annos=[], fields=[fl(1, "x", i32)]),
+        dict(kind="struct", name="foo_item" + tag, complete=True, annos=[], fields=[fl(1, "x", s)]),
+        dict(kind="struct", name="FooItem" + tag, complete=True, annos=[], fields=[fl(1, "x", ("ref", fi, "fooItem" + tag), "optional")]),
+        dict(kind="enum", name="Mode" + tag, complete=True, members=[("fastPath", 1), ("fast_path", 2), ("FastPath", 3)]),
+        dict(kind="const", name="MaxLen" + tag, ty=i32, value="7"),
+        dict(kind="const", name="MAX_LEN" + tag, ty=i32, value="8"),
+        dict(kind="exception", name="Oops" + tag, complete=True, annos=[], fields=[fl(1, "why", s)]),
+    ]
+
+    def svc(name, methods):
+        return dict(kind="service", name=name, extends=None, methods=[
+            dict(name=m, args=[fl(1, "req", req), fl(2, "Req", i32)] if j == 0 else [fl(1, "q", other)], ret=req if j % 2 == 0 else None,
+                 throws=[fl(1, "e", ("ref", fi, "Oops" + tag))] if j == 0 else [], oneway=False) for j, m in enumerate(methods)])
+    items += [svc("Search" + tag, ["query", "ping", "getItem", "get_item"]), svc("search" + tag, ["query", "ping", "GetItem"]),
+              svc("user_svc" + tag, ["query"]), svc("UserSvc" + tag, ["query", "Query"])]
+    return items
+
+
+def collision_include_docs():
+    """directed documents: collision features x include -- the collisions in the including file only, in the included file only,
+    in both (a chain main -> f1 -> f2 where the middle file is including and included at once), and a diamond"""
+    fl = lambda i, n, t, req="": dict(id=i, name=n, ty=t, req=req, default=None, annos=[])
+    leaf = lambda name: dict(kind="struct", name=name, complete=True, annos=[], fields=[fl(1, "v", ("base", "i64"), "required")])
+    plain_user = lambda fi, target: dict(kind="struct", name="Holder%d" % fi, complete=True, annos=[],
+                                         fields=[fl(1, "x", ("ref", target[0], target[1]), "required"), fl(2, "xs", ("list", ("ref", target[0], target[1])))])
+    out = []
+
+    def mk(name, layout):
+        d = Doc()
+        for i, (ns, inc) in enumerate(layout):
+            d.files.append(dict(name="main.thrift" if i == 0 else "f%d.thrift" % i, ns=ns, includes=inc, items=[], other_ns=False))
+        out.append((name, d))
+        return d
+    # 1. collisions in the including file
+    d = mk("ci_including", [(["ci", "top"], [1]), (["ci", "leafs"], [])])
+    d.files[1]["items"] += [leaf("Leaf")]
+    d.files[0]["items"] += collision_block(0, "", (1, "Leaf"))
+    # 2. collisions in the included file only
+    d = mk("ci_included", [(["cj", "top"], [1]), (["cj", "lib"], [])])
+    d.files[1]["items"] += collision_block(1, "")
+    d.files[0]["items"] += [plain_user(0, (1, "Req")), dict(kind="service", name="Front", extends=("ref", 1, "Search"), methods=[])]
+    # 3. both, as a chain: main (collisions, includes f1) -> f1 (collisions, includes f2) -> f2 (plain); no namespace in f1
+    d = mk("ci_chain", [(["ck"], [1]), (None, [2]), (["ck", "deep", "leafs"], [])])
+    d.files[2]["items"] += [leaf("Leaf")]
+    d.files[1]["items"] += collision_block(1, "", (2, "Leaf"))
+    d.files[0]["items"] += collision_block(0, "", (1, "Req"))
+    # 4. diamond: main includes f1 and f2, both include f3; collisions in main and in f2, main's services declared BEFORE and the
+    #    collision partner AFTER other items
+    d = mk("ci_diamond", [(["cd", "a"], [1, 2]), (["cd", "b"], [3]), (["cd", "a", "b"], [3]), (["cd"], [])])
+    d.files[3]["items"] += [leaf("Leaf")]
+    d.files[1]["items"] += [plain_user(1, (3, "Leaf"))]
+    d.files[2]["items"] += collision_block(2, "X", (3, "Leaf"))
+    blk = collision_block(0, "", (2, "ReqX"))
+    d.files[0]["items"] += [x for x in blk if x["kind"] == "service"][:1] + [x for x in blk if x["kind"] != "service"] + [x for x in blk if x["kind"] == "service"][1:]
+    return out
+
+
 def gen_thrift_doc(rng, **kw):
     return ThriftGen(rng, **kw).gen()
 
@@ -956,6 +1025,45 @@ def c17_thrift_corpus(rng, n_files=8, items=8):
             g.gen_service(fi, "ExtraSvc%d_%d" % (fi, k))
     doc.files[0]["name"] = "main.thrift"
     return doc
+
+
+def c17_dedup_corpus(rng, n_modules=10):
+    """corpus for Builder::dedup: the intended use (two files sharing one namespace that both declare the same BaseResp / Empty) plus
+    the common layout "every file has its own BaseResp": structurally equal items called BaseResp (def_id_equal compares field ids,
+    kinds and types, not field names) in n_modules different namespaces -- siblings, nested (svc.m1 / svc.m1.inner) and keyword
+    segments -- and once more inside a module that has two of them.  Two entry files (workspace mode: several crates + common).
+    -> (files, entries, dedup names)"""
+    r = rng
+    base = lambda tag: "struct BaseResp {\n  1: i32 status_%s,\n  2: string text_%s,\n  255: optional map<string, string> extra_%s,\n}\n" % (tag, tag, tag)
+    empty = "struct Empty {\n}\n"
+    files = {}
+    files["a.thrift"] = "namespace rs shared\n\n" + base("a") + "\n" + empty + "\nstruct OnlyA {\n  1: BaseResp r,\n}\n"
+    files["b.thrift"] = "namespace rs shared\n\n" + base("b") + "\n" + empty + "\nstruct OnlyB {\n  1: BaseResp r,\n  2: Empty e,\n}\n"
+    nss = ["svc.m%d" % i for i in range(1, n_modules + 1)]
+    extra = ["svc.m1.inner", "svc.type", "other.self.deep", "z"]
+    r.shuffle(extra)
+    nss += extra[:r.choice([2, 3, 4])]
+    mods = []
+    for i, ns in enumerate(nss):
+        fn = "m%d.thrift" % i
+        body = "namespace rs %s\n\n" % ns + base("m%d" % i) + "\n"
+        if r.random() < 0.5:
+            body += empty + "\n"
+        # an item that is NOT structurally equal to the others, and a user of the local BaseResp
+        body += "struct Detail%d {\n  1: BaseResp base,\n  2: list<i64> ids,\n  3: optional string note_%d,\n}\n" % (i, i)
+        if r.random() < 0.4:
+            body += "\nstruct BaseReq {\n  1: i32 page,\n  2: string token,\n}\n"
+        files[fn] = body
+        mods.append(fn)
+    r.shuffle(mods)
+    half = len(mods) // 2
+    inc = lambda fns: "".join('include "%s"\n' % f for f in fns)
+    stem = lambda f: f[:-len(".thrift")]
+    files["main.thrift"] = ("namespace rs api.front\n" + inc(["a.thrift", "b.thrift"] + mods) + "\n" + base("main") + "\nservice Front {\n" +
+                            "".join("  %s.BaseResp call_%s(1: %s.Detail%s req, 2: a.OnlyA x, 3: b.OnlyB y),\n" % (stem(f), stem(f), stem(f), stem(f)[1:]) for f in mods) + "}\n")
+    files["other.thrift"] = ("namespace rs api.back\n" + inc(["a.thrift"] + mods[half:]) + "\n" + base("other") + "\nservice Back {\n" +
+                             "".join("  %s.BaseResp get_%s(1: BaseResp own),\n" % (stem(f), stem(f)) for f in mods[half:]) + "}\n")
+    return files, ["main.thrift", "other.thrift"], ["BaseResp", "Empty", "BaseReq"]
 
 
 def c17_proto_corpus(rng, n_top=5, n_nested=6):
